@@ -31,11 +31,14 @@ let model input =
   let sf_hits = mode = "sfault" && Crash.stmt_fault_hits h.forbidden pre hi (nat_of_int k) in
   let crash = if mode = "sfault" then
       (if sf_hits then Crash.stmt_fault_state h.forbidden pre hi (nat_of_int k) else fst (Chain.add h.forbidden pre hi))
-    else if mode = "ckill" then Crash.commit_crash_state h.forbidden pre hi (nat_of_int k)
+    else if mode = "ckill" || mode = "cfault" then Crash.commit_crash_state h.forbidden pre hi (nat_of_int k)
     else Crash.crash_state h.forbidden pre hi (nat_of_int k) in
   let o_i = if mode = "kill" then "K" else if mode = "ckill" then "X"
     else if mode = "sfault" then
-      (if sf_hits then (if k = 2 then "ES" else "EU") else outcome_string (snd (Chain.add h.forbidden pre hi))) else
+      (if sf_hits then (if k = 2 then "ES" else "EU") else outcome_string (snd (Chain.add h.forbidden pre hi)))
+    else if mode = "cfault" then
+      (match Crash.commit_fault_kind h.forbidden pre hi (nat_of_int k) with
+       | Crash.FChainUpdateFail -> "EU" | Crash.FHeaderSaveFail -> "ES" | Crash.FNoWrite -> "NOWRITE") else
       (match Crash.fault_kind h.forbidden pre hi (nat_of_int k) with
        | Crash.FChainUpdateFail -> "EU" | Crash.FHeaderSaveFail -> "ES" | Crash.FNoWrite -> "NOWRITE") in
   let (outs, after_fault) =
